@@ -4026,6 +4026,13 @@ impl<'s> Semantics<'s> {
             let count = self.operand_load(block, &detail.operands[2])?;
 
             let bits = dst.bits();
+            // the count is masked to 5 bits (6 bits for 64-bit operands); a masked count of zero
+            // leaves the destination and every flag unchanged
+            let count = Expr::and(
+                count.clone(),
+                expr_const(if bits == 64 { 0x3f } else { 0x1f }, count.bits()),
+            )?;
+            let zero_count = Expr::cmpeq(count.clone(), expr_const(0, count.bits()))?;
             let tmp = Expr::or(
                 Expr::shl(
                     Expr::zext(bits * 2, dst.clone())?,
@@ -4054,10 +4061,37 @@ impl<'s> Semantics<'s> {
                 )?,
             )?;
 
-            block.assign(scalar("CF", 1), cf);
-
-            self.set_zf(block, result.clone())?;
-            self.set_sf(block, result.clone())?;
+            block.assign(
+                scalar("CF", 1),
+                Expr::ite(zero_count.clone(), expr_scalar("CF", 1), cf)?,
+            );
+            // OF (1-bit shifts): the sign of the destination changed
+            let msb = |e: Expression| -> Result<Expression, Error> {
+                Expr::trun(
+                    1,
+                    Expr::shr(e.clone(), expr_const(e.bits() as u64 - 1, e.bits()))?,
+                )
+            };
+            block.assign(
+                scalar("OF", 1),
+                Expr::ite(
+                    zero_count.clone(),
+                    expr_scalar("OF", 1),
+                    Expr::xor(msb(result.clone())?, msb(dst.clone())?)?,
+                )?,
+            );
+            block.assign(
+                scalar("ZF", 1),
+                Expr::ite(
+                    zero_count.clone(),
+                    expr_scalar("ZF", 1),
+                    Expr::cmpeq(result.clone(), expr_const(0, result.bits()))?,
+                )?,
+            );
+            block.assign(
+                scalar("SF", 1),
+                Expr::ite(zero_count, expr_scalar("SF", 1), msb(result.clone())?)?,
+            );
 
             self.operand_store(block, &detail.operands[0], result)?;
 
@@ -4082,6 +4116,13 @@ impl<'s> Semantics<'s> {
             let count = self.operand_load(block, &detail.operands[2])?;
 
             let bits = dst.bits();
+            // the count is masked to 5 bits (6 bits for 64-bit operands); a masked count of zero
+            // leaves the destination and every flag unchanged
+            let count = Expr::and(
+                count.clone(),
+                expr_const(if bits == 64 { 0x3f } else { 0x1f }, count.bits()),
+            )?;
+            let zero_count = Expr::cmpeq(count.clone(), expr_const(0, count.bits()))?;
             let tmp = Expr::or(
                 Expr::zext(bits * 2, dst.clone())?,
                 Expr::shl(
@@ -4106,10 +4147,37 @@ impl<'s> Semantics<'s> {
                 )?,
             )?;
 
-            block.assign(scalar("CF", 1), cf);
-
-            self.set_zf(block, result.clone())?;
-            self.set_sf(block, result.clone())?;
+            block.assign(
+                scalar("CF", 1),
+                Expr::ite(zero_count.clone(), expr_scalar("CF", 1), cf)?,
+            );
+            // OF (1-bit shifts): the sign of the destination changed
+            let msb = |e: Expression| -> Result<Expression, Error> {
+                Expr::trun(
+                    1,
+                    Expr::shr(e.clone(), expr_const(e.bits() as u64 - 1, e.bits()))?,
+                )
+            };
+            block.assign(
+                scalar("OF", 1),
+                Expr::ite(
+                    zero_count.clone(),
+                    expr_scalar("OF", 1),
+                    Expr::xor(msb(result.clone())?, msb(dst.clone())?)?,
+                )?,
+            );
+            block.assign(
+                scalar("ZF", 1),
+                Expr::ite(
+                    zero_count.clone(),
+                    expr_scalar("ZF", 1),
+                    Expr::cmpeq(result.clone(), expr_const(0, result.bits()))?,
+                )?,
+            );
+            block.assign(
+                scalar("SF", 1),
+                Expr::ite(zero_count, expr_scalar("SF", 1), msb(result.clone())?)?,
+            );
 
             self.operand_store(block, &detail.operands[0], result)?;
 
